@@ -109,6 +109,12 @@ def run(e: Engine, rep: Report):
              'in the pool')
     rep.tables.add('c19.POOL_GROWTH_YIELDERS')
     l14(e, rep)
+    rep.rule('L15', 'a request is taken off the pool queue by poll() only '
+             '(and its private helpers): a client that empties the queue by '
+             'other means settles requests nobody attempted - with another '
+             'envelope\'s outcome - and takes them away from the clients '
+             'that would have delivered them')
+    l15(e, rep)
 
 
 
@@ -1095,3 +1101,34 @@ def l14(e: Engine, rep: Report):
     else:
         rep.ok('L14', POOL, 'growth paths scanned', reason='%d pool classes'
                % n, nontrivial=False)
+
+
+# --------------------------------------------------------------------- L15
+def l15(e: Engine, rep: Report):
+    takers = {'popleft', 'pop', 'clear', 'remove', 'get', 'get_nowait'}
+    owners = common.owner_closure(e, pool.POOL_CLIENT, {'poll'})
+    n = 0
+    for f in sorted(e.p.functions.values(), key=lambda f: f.qname):
+        if not f.module.name.startswith('slimta.relay'):
+            continue
+        for x in walk_own(f.node):
+            # (called, or handed to a runner as a bound method)
+            if not (isinstance(x, ast.Attribute) and
+                    isinstance(x.ctx, ast.Load) and x.attr in takers and
+                    ast.unparse(x.value) in ('self.queue',
+                                             'self.relay.queue')):
+                continue
+            n += 1
+            rep.evaluations += 1
+            rep.functions.add(f.qname)
+            ok = f.cls is not None and (
+                f.cls.qname == pool.POOL_CLIENT and f.name in owners)
+            rep.check(ok, 'L15', f.qname, '`%s`' % ' '.join(
+                ast.unparse(x).split())[:40],
+                '%s takes requests off the pool queue outside poll(): they '
+                'are settled (or dropped) without having been attempted by '
+                'anybody, the outcome reported for them is that of another '
+                'envelope' % f.qname, loc=f.loc(x),
+                reason='inside RelayPoolClient.poll')
+    if n < 1:
+        rep.error('anchor vanished: queue.popleft() in RelayPoolClient.poll')
